@@ -6,6 +6,57 @@
 //!   gvharness exec <file>                             run the case lines of a file in-process (replay)
 mod exec;
 mod gens;
+pub mod alloc_count {
+    //! a counting allocator: the peak of live heap bytes, and a cap beyond which allocation fails
+    //! (the worker then dies and the supervisor reports CRASH)
+    use std::alloc::{GlobalAlloc, Layout, System};
+    use std::sync::atomic::{AtomicUsize, Ordering::Relaxed};
+    pub static CUR: AtomicUsize = AtomicUsize::new(0);
+    pub static PEAK: AtomicUsize = AtomicUsize::new(0);
+    pub static CAP: AtomicUsize = AtomicUsize::new(usize::MAX);
+    pub struct Counting;
+    fn add(n: usize) -> bool {
+        let now = CUR.fetch_add(n, Relaxed) + n;
+        if now > CAP.load(Relaxed) {
+            CUR.fetch_sub(n, Relaxed);
+            return false;
+        }
+        PEAK.fetch_max(now, Relaxed);
+        true
+    }
+    unsafe impl GlobalAlloc for Counting {
+        unsafe fn alloc(&self, l: Layout) -> *mut u8 {
+            if !add(l.size()) {
+                return std::ptr::null_mut();
+            }
+            System.alloc(l)
+        }
+        unsafe fn dealloc(&self, p: *mut u8, l: Layout) {
+            CUR.fetch_sub(l.size(), Relaxed);
+            System.dealloc(p, l)
+        }
+        unsafe fn realloc(&self, p: *mut u8, l: Layout, new: usize) -> *mut u8 {
+            if new > l.size() && !add(new - l.size()) {
+                return std::ptr::null_mut();
+            }
+            if new < l.size() {
+                CUR.fetch_sub(l.size() - new, Relaxed);
+            }
+            System.realloc(p, l, new)
+        }
+    }
+    /// live bytes now; resets the peak to it
+    pub fn mark() -> usize {
+        let c = CUR.load(Relaxed);
+        PEAK.store(c, Relaxed);
+        c
+    }
+    pub fn peak() -> usize {
+        PEAK.load(Relaxed)
+    }
+}
+#[global_allocator]
+static GLOBAL: alloc_count::Counting = alloc_count::Counting;
 mod oracles;
 mod rng;
 mod wire;
@@ -17,6 +68,8 @@ use std::time::Duration;
 
 fn worker() {
     std::panic::set_hook(Box::new(|_| {}));
+    // no case needs more than this; a decoder that allocates from an untrusted count dies here
+    alloc_count::CAP.store(3 << 30, std::sync::atomic::Ordering::Relaxed);
     let stdin = std::io::stdin();
     let stdout = std::io::stdout();
     for line in stdin.lock().lines() {
